@@ -206,8 +206,10 @@ static void mutate(int w, int j, uint64_t kind, uint64_t param) {
       std::string key = collide[param % 4]; v.toMap().append(mkString(key), mkVariant(child)); if (m.t != Val::MAP) { m = Val(); m.t = Val::MAP; }
       bool have = false; for (auto& kv : m.kids) if (kv.first == key) { kv.second = child; have = true; probe("map_key_overwritten"); } if (!have) m.kids.push_back({key, child});
       break; }
-    case 9: { /* remove one key of a map payload */
-      if (m.t == Val::MAP && !m.kids.empty()) { size_t at = (size_t)(param % m.kids.size()); std::string key = m.kids[at].first; v.toMap().remove(mkString(key)); m.kids.erase(m.kids.begin() + at); probe("map_key_removed"); }
+    case 9: { /* remove one key of a map payload: by key, or the first / last entry through the iterator forms */
+      if (m.t == Val::MAP && !m.kids.empty()) { size_t at = (size_t)(param % m.kids.size()); std::string key = m.kids[at].first;
+        if (param % 5 == 0) { v.toMap().removeFront(); at = 0; } else if (param % 5 == 1) { HashMap<String, Variant>& h = v.toMap(); h.remove(h.begin()); at = 0; } else if (param % 5 == 2) { v.toMap().removeBack(); at = m.kids.size() - 1; } else v.toMap().remove(mkString(key));
+        m.kids.erase(m.kids.begin() + at); probe("map_key_removed"); }
       break; }
     case 18: { /* the container assignment overloads, from an independent container: empty (the shared static one a non-container Variant hands out) or with one element */
       const Variant other((int64)7); Val one; one.t = Val::STR; one.s = gs;
@@ -271,7 +273,7 @@ static void mutate(int w, int j, uint64_t kind, uint64_t param) {
     case 5: { std::string key = collide[param % 4]; Xml::Element& e = x.toElement(); e.attributes.append(mkString(key), mkString(gs)); if (m.t != Val::XELEM) { m = Val(); m.t = Val::XELEM; }
       bool have = false; for (auto& kv : m.attrs) if (kv.first == key) { kv.second = gs; have = true; probe("map_key_overwritten"); } if (!have) m.attrs.push_back({key, gs});
       break; }
-    case 6: { if (m.t == Val::XELEM && !m.attrs.empty()) { size_t at = (size_t)(param % m.attrs.size()); std::string key = m.attrs[at].first; x.toElement().attributes.remove(mkString(key)); m.attrs.erase(m.attrs.begin() + at); probe("map_key_removed"); } break; }
+    case 6: { if (m.t == Val::XELEM && !m.attrs.empty()) { size_t at = (size_t)(param % m.attrs.size()); std::string key = m.attrs[at].first; if (param % 4 == 0) { x.toElement().attributes.removeFront(); at = 0; } else if (param % 4 == 1) { x.toElement().attributes.removeBack(); at = m.attrs.size() - 1; } else x.toElement().attributes.remove(mkString(key)); m.attrs.erase(m.attrs.begin() + at); probe("map_key_removed"); } break; }
     case 7: { /* replace an element by its tag name: the String handle lives inside the own payload */
       if (m.t == Val::XELEM) { x = x.toElement().type; std::string str = m.s; m = Val(); m.t = Val::XTEXT; m.s = str; probe("assign_from_nested_string"); } break; }
     case 8: { /* ... or by its first attribute's value */
